@@ -661,6 +661,19 @@ func (e *AnimEncoder) encodeFrame(img image.Image, lossless bool, quality int) (
 func (e *AnimEncoder) addOptimizedFrame(img image.Image, duration time.Duration) error {
 	currCanvas := toNRGBA(img)
 
+	// The canvas bookkeeping below (cloning, diffing, sub-image extraction)
+	// indexes Pix assuming origin (0,0) and a tight stride. toNRGBA returns an
+	// *image.NRGBA argument as-is, so normalise sub-image views, shifted
+	// origins and padded strides first.
+	if b := currCanvas.Bounds(); b.Min != (image.Point{}) || currCanvas.Stride != 4*b.Dx() || len(currCanvas.Pix) != 4*b.Dx()*b.Dy() {
+		tight := image.NewNRGBA(image.Rect(0, 0, b.Dx(), b.Dy()))
+		for y := 0; y < b.Dy(); y++ {
+			off := currCanvas.PixOffset(b.Min.X, b.Min.Y+y)
+			copy(tight.Pix[y*tight.Stride:(y+1)*tight.Stride], currCanvas.Pix[off:off+4*b.Dx()])
+		}
+		currCanvas = tight
+	}
+
 	// Ensure canvas dimensions match. If the image is smaller than the canvas,
 	// place it at (0,0) on a full-canvas NRGBA.
 	if currCanvas.Bounds().Dx() != e.width || currCanvas.Bounds().Dy() != e.height {
